@@ -201,8 +201,10 @@ register_descriptor! {
 
 macro_rules! div_assign_2d_vector_all {
   ($source:expr, $ix:expr, $sink:expr) => {
-    for val in ($sink).iter_mut() {
-      *val /= (*$source);
+    for cix in 0..($sink).ncols() {
+      for rix in $ix.iter() {
+        ($sink).column_mut(cix)[rix - 1] /= (*$source);
+      }
     }
   };}
 
